@@ -1,6 +1,6 @@
 #!/venv/bin/python
 """Regenerate the table of seeded changes in DESIGN.md (between the SEEDED-TABLE markers) from seeded/*/meta.json and
-the last regression log (tools/regress_seeded.sh > tools/regress.log)."""
+the last regression log (tools/regress_parallel.py or tools/regress_seeded.sh -> tools/regress.log)."""
 import glob, json, os, re
 V = os.path.dirname(os.path.dirname(os.path.abspath(__file__)))
 log = {}
@@ -9,8 +9,9 @@ if os.path.exists(p):
     for ln in open(p):
         w = ln.split()
         if len(w) >= 2:
-            log[w[0]] = ("VIOLATION with failing input" if "VIOLATION" in ln and "no-failing-input-found" not in ln else
-                         "VIOLATION no-failing-input-found" if "VIOLATION" in ln else "MISSED")
+            # two log formats: tools/regress_seeded.sh ("... VIOLATION ...") and tools/regress_parallel.py ("<name> <Cxx> input|no-input|MISSED")
+            log[w[0]] = ("VIOLATION with failing input" if ("VIOLATION" in ln and "no-failing-input-found" not in ln) or w[-1] == "input" else
+                         "VIOLATION no-failing-input-found" if "VIOLATION" in ln or w[-1] == "no-input" else "MISSED")
 rows = ["| seeded change | breaks | what was changed | needs | check result (last regression run) |", "|---|---|---|---|---|"]
 def key(d):
     m = re.match(r"(C\d+)_(r\d_)?(\d+)", os.path.basename(d))
